@@ -159,8 +159,21 @@ def make_tool_replay(pid, signature, what, inputs, run_src, expected, extra=None
 
 # ---- replay side (unpatched code) ----------------------------------------------------------------------
 
+def reversed_completion_pool():
+    """Any completion order is a legitimate behaviour of imap_unordered: hand the results back last-first (deterministic)."""
+    import multiprocessing.pool as mpp
+    real = mpp.Pool.imap_unordered
+
+    def imap_unordered(self, func, iterable, chunksize=1):
+        return iter(list(self.imap(func, iterable, chunksize))[::-1])
+    mpp.Pool.imap_unordered = imap_unordered
+    return lambda: setattr(mpp.Pool, 'imap_unordered', real)
+
+
 def replay_c01(d, case):
     from amr_kitchen import PlotfileCooker
+    if 'schedule' in case.get('signature', ''):
+        reversed_completion_pool()
     pck = PlotfileCooker(os.path.join(d, 'plt'))
     env = {'np': np}
     fsel, lv, bsel = (eval(e, env) for e in case['call'])
@@ -776,6 +789,12 @@ def replay_c11(d, case):
     label, kw, kept = case['label'], dict(case['kw']), case['kept']
     out = os.path.join(d, 'out')
     with contextlib.redirect_stdout(io.StringIO()), contextlib.redirect_stderr(io.StringIO()):
+        if case.get('prior'):
+            pr = case['prior']
+            try:
+                Chef(plotfile=os.path.join(d, 'plt'), recipe=pr['recipe'], outfile=os.path.join(d, 'out0'), serial=True, kept_fields=pr['kept'], **pr['kw']).cook()
+            except Exception:
+                pass
         try:
             Chef(plotfile=os.path.join(d, 'plt'), recipe=case['recipe'], outfile=out, serial=case['serial'], kept_fields=kept, **kw).cook()
         except Exception as e:
